@@ -192,7 +192,7 @@ class Inliner:
     def _run(self, key, body, stack):
         blocks = body["blocks"]
         if len(stack) <= 2:
-            low = lower.lower_iter_calls(body, self._closure_of(key))
+            low = lower.lower_iter_calls(body, self._closure_of(key)) + lower.lower_from_fn_find(body, self._closure_of(key))
             if low:
                 self.inlined_into.setdefault(key, []).extend(low)
                 self.lowered.setdefault(key, []).extend(low)
@@ -455,6 +455,14 @@ def constructors_of(F, adt, allowed_names):
             if g_.get("path") != p_:
                 break
         owners = owners_of(F, g_) if not g_.get("closure") else []
+        # a helper spliced into a closure belongs to the closure's enclosing function
+        up = []
+        for o_ in owners:
+            po_ = str(o_.get("path") or "")
+            while "::{closure" in po_:
+                po_ = po_[:po_.rindex("::{closure")]
+            up.append(by_path.get(po_, o_) if po_ != str(o_.get("path") or "") else o_)
+        owners = up
         if not owners:
             bad.add(str(f_.get("path")))
         for o_ in owners:
